@@ -7,6 +7,8 @@ from vt import terms as tm, pyfront as P, ideal
 from vt.terms import INT, REAL
 
 LEVEL = 'proof'
+from vt import oblig as _oblig
+_oblig.OPTIONAL_CLAUSES['C06'] = ('pNorm_is_its_root',)
 TRUSTED = ['binary64 treated as real arithmetic', 'CPython executes the re-executed source (LoopCut is the only transformation; print dropped)',
            'Gram abstraction: vectors are elements of an arbitrary real inner-product space; hess_vec_func is a symmetric linear operator, precond a symmetric positive-definite one',
            'z3 5.1 / cvc5 soundness']
@@ -306,6 +308,7 @@ def _treigen_form(S, form):
         out['pNormSq'] = pn2
         out['pNorm'] = tm.sqrt(pn2)
         out['bError'] = (out['pNorm'] - Delta) / Delta
+        out = {k: v for k, v in out.items() if k in names or k == 'lam'}
         for k in names:
             if k not in out:
                 out[k] = ctx.newvar(k)
@@ -315,9 +318,12 @@ def _treigen_form(S, form):
         lam = live['lam']
         pn2 = ns['pnorm_squared'](live['bvv'], live['sig'] + lam)
         o = OD()
-        o['pNormSq_is_secular_function_of_lam'] = tm.eq(live['pNormSq'], pn2)
-        o['pNorm_is_its_root'] = tm.eq(live['pNorm'], tm.sqrt(live['pNormSq']))
-        o['bError_is_relative_boundary_error'] = tm.eq(live['bError'], (live['pNorm'] - Delta) / Delta)
+        # the invariant is about the shift lam; each temporary the code happens to keep must be the corresponding function of lam
+        spec = OD([('pNormSq', ('pNormSq_is_secular_function_of_lam', pn2)), ('pNorm', ('pNorm_is_its_root', tm.sqrt(pn2))),
+                   ('bError', ('bError_is_relative_boundary_error', (tm.sqrt(pn2) - Delta) / Delta))])
+        for k, (cname, val) in spec.items():
+            if live.get(k) is not None:
+                o[cname] = tm.eq(live[k], val)
         return o
     def entry(live, ctx):
         lam = tm.lift(live['lam'])
@@ -365,11 +371,13 @@ def _treigen_form(S, form):
             defined = [tm.ne(s0 + lam, 0), tm.ne(s1 + lam, 0)]
             S.add('treigen.solve[%s]/boundary_step_satisfies_shifted_newton_system@path%d' % (form, pi), hy + defined,
                   tm.and_(tm.eq(grad[0] + lam * r[0], 0), tm.eq(grad[1] + lam * r[1], 0)))
+            # stated in terms of the shift (not of whatever temporaries the code keeps): |s|^2 is the secular function at lam, and its
+            # root is within the loop's tolerance of the radius
+            pn2_lam = tm.lift(ns['pnorm_squared'](loc['bvv'], loc['sig'] + lam))
             ideal.add_ideal_obligation(S, 'treigen.solve[%s]/boundary_step_norm_is_secular_norm@path%d' % (form, pi), [(c * c + s * s, tm.ONE)],
-                                       [(nrm2, tm.lift(loc['pNormSq']))], fallback_hyps=defined)
+                                       [(nrm2, pn2_lam)], fallback_hyps=defined)
             S.add('treigen.solve[%s]/boundary_secular_norm_within_tolerance_of_radius@path%d' % (form, pi), hy + defined,
-                  tm.and_(tm.eq(tm.lift(loc['pNorm']), tm.sqrt(tm.lift(loc['pNormSq']))),
-                          tm.abs_(tm.lift(loc['pNorm']) - Delta) <= tm.const(1e-9) * Delta))
+                  tm.abs_(tm.sqrt(pn2_lam) - Delta) <= tm.const(1e-9) * Delta)
     S.notes.append('treigen.solve: %d paths, %d returned' % (len(paths), nret))
     if nret == 0:
         raise P.CheckerError('treigen: no path returned')
